@@ -203,8 +203,12 @@ def process(ctx: Ctx, cases: list[dict]) -> None:
             else:
                 fs.append([comps, {"native": text}])
         c["_fs"] = fs
-        reqs.append({"op": "read", "fs": fs, "path": ["R"] + c["root"].split("/"), "start": -1})
-        reqs.append({"op": "read", "fs": fs, "path": ["R"] + c["root"].split("/"), "start": -1, "includes": False})
+        # the placeholder counter at the start of the read: fresh, or so close to its limit that the wrap-around falls
+        # between the ids of two include directives / comments of one file (precedence must not depend on it)
+        if "start" not in c:
+            c["start"] = -1 if len(reqs) % 8 else 999999 - (len(reqs) // 8) % 7
+        reqs.append({"op": "read", "fs": fs, "path": ["R"] + c["root"].split("/"), "start": c["start"]})
+        reqs.append({"op": "read", "fs": fs, "path": ["R"] + c["root"].split("/"), "start": c["start"], "includes": False})
     replies = None if ctx.oracle_only else ctx.driver(reqs)
     for ci, c in enumerate(cases):
         exp, order = reference(c)
@@ -216,13 +220,13 @@ def process(ctx: Ctx, cases: list[dict]) -> None:
                     p = td / nm
                     p.parent.mkdir(parents=True, exist_ok=True)
                     p.write_text(text.replace(ABS, str(td)))
-                reset_globals()
+                reset_globals(c["start"] if c.get("start", -1) >= 0 else None)
                 sd = DictReader.read(td / c["root"])
                 isd = c01.sd_json(sd)
                 from dictIO.utils.counter import BorgCounter
                 cnt = BorgCounter.Borg["theCount"]
                 tdname = str(td)
-                reset_globals()
+                reset_globals(c["start"] if c.get("start", -1) >= 0 else None)
                 sd_off = DictReader.read(td / c["root"], includes=False)
                 isd_off = c01.sd_json(sd_off)
                 # the same process reads the graph again after an included file was replaced by other content of the same
